@@ -8,7 +8,7 @@ use crate::fields::FieldModOperation;
 use crate::fields::fn64::{fn_add, fn_mul, fn_pow, fn_sub, SM2_N, SM2_N_MINUS_TWO};
 use crate::fields::fp64::{fp_from_mont, random_u256};
 use crate::p256_ecc::{g_mul, Point};
-use crate::u256::{SM2_ONE, U256, u256_add, u256_cmp, u256_from_be_bytes};
+use crate::u256::{SM2_ONE, U256, u256_add, u256_cmp, u256_from_be_bytes, u256_sub};
 use crate::util::{compute_za, DEFAULT_ID, kdf, xor_bytes};
 
 pub enum Sm2Model {
@@ -144,8 +144,15 @@ impl Sm2PublicKey {
         let s_g = g_mul(&s);
         let t_p = pk.scalar_mul(&t);
         let p = s_g.point_add(&t_p).to_affine_point();
-        let x1 = u256_from_be_bytes(&fp_from_mont(&p.x).to_byte_be());
-        let e = u256_from_be_bytes(&digest);
+        // fn_add expects operands below n: e is any 256-bit value and x1 is only below p
+        let mut x1 = u256_from_be_bytes(&fp_from_mont(&p.x).to_byte_be());
+        if u256_cmp(&x1, n) >= 0 {
+            x1 = u256_sub(&x1, n).0;
+        }
+        let mut e = u256_from_be_bytes(&digest);
+        if u256_cmp(&e, n) >= 0 {
+            e = u256_sub(&e, n).0;
+        }
         let r1 = fn_add(&x1, &e);
         return if u256_cmp(r, &r1) == 0 {
             Ok(())
@@ -227,13 +234,20 @@ impl Sm2PrivateKey {
         if digest.len() != 32 {
             return Err(Sm2Error::InvalidDigestLen);
         }
-        let e = u256_from_be_bytes(&digest);
         let n = &SM2_N;
+        // fn_add expects operands below n: e is any 256-bit value and x1 is only below p
+        let mut e = u256_from_be_bytes(&digest);
+        if u256_cmp(&e, n) >= 0 {
+            e = u256_sub(&e, n).0;
+        }
         let s1 = fn_pow(&u256_add(&SM2_ONE, &sk).0, &SM2_N_MINUS_TWO);
         loop {
             let k = random_u256();
             let p_x = g_mul(&k).to_affine_point();
-            let x1 = u256_from_be_bytes(&fp_from_mont(&p_x.x).to_byte_be());
+            let mut x1 = u256_from_be_bytes(&fp_from_mont(&p_x.x).to_byte_be());
+            if u256_cmp(&x1, n) >= 0 {
+                x1 = u256_sub(&x1, n).0;
+            }
             let r = fn_add(&e, &x1);
             if r.is_zero() || u256_add(&r, &k).0 == *n {
                 continue;
